@@ -60,6 +60,7 @@ type appCfg struct {
 	adjustment    int64
 	participation bool
 	transferAt    int64 // activation height of the AppTransfer feature
+	codecAt       int64 // height K of the amino -> proto codec upgrade (0 / 1: every block is past it)
 	apps          []chainsim.AppSpec
 	balances      map[int]int64
 }
@@ -71,10 +72,15 @@ func baseBalances() map[int]int64 {
 
 func (a appCfg) config() chainsim.Config {
 	feats := chainsim.DefaultFeatures()
+	if a.codecAt > 1 { // no feature can be active before the codec upgrade
+		for k := range feats {
+			feats[k] = a.codecAt + 1
+		}
+	}
 	if a.transferAt > 0 {
 		feats["AppTransfer"] = a.transferAt
 	}
-	return chainsim.Config{Seed: a.seed, NKeys: 10, Balances: a.balances,
+	return chainsim.Config{Seed: a.seed, NKeys: 10, Balances: a.balances, CodecUpgradeAt: a.codecAt,
 		Nodes: []chainsim.NodeSpec{{Key: 0, Output: -1, Tokens: 5000000, Chains: []string{"0001"}},
 			{Key: 1, Output: -1, Tokens: 3000000, Chains: []string{"0001", "0002"}}},
 		Apps: a.apps, DAOTokens: 1000000, DAOOwner: 0, Servicer: -1, Features: feats,
@@ -94,7 +100,7 @@ func newWorld(a appCfg) *world {
 
 // ---- design-model variants: a chain built by genesis + a fixed warm-up script ---------
 
-const nVariants = 4
+const nVariants = 5
 
 func variantWorld(v int) *world {
 	a := appCfg{seed: hx.Seed(), maxApps: 2, maxChains: 2, unstaking: 2, baseRelays: 100000, balances: baseBalances()}
@@ -109,12 +115,27 @@ func variantWorld(v int) *world {
 		a.maxApps = 3
 		a.adjustment = 7
 		a.apps = two[:1]
+	case 5: // two blocks before the codec upgrade height (K = 9): a4 staked, a5 a legacy record (Unstaked, 0 tokens)
+		a.codecAt = 9
+		a.apps = two
 	default:
 		hx.Fatal("unknown variant %d", v)
 	}
 	w := newWorld(a)
 	w.block(1)
 	w.block(1)
+	if v == 5 {
+		r := w.block(1, w.unstakeTx(4, 4, 900001)) // h3: due 5
+		if r[0].Code != 0 {
+			hx.Fatal("variant 5 warm-up: unstake failed: %s", r[0].Log)
+		}
+		for w.s.Height < 7 {
+			w.block(1)
+		}
+		if rec, ok := w.s.Project().App[w.name(4)]; !ok || rec.Status != 0 {
+			hx.Fatal("variant 5 warm-up: no legacy record")
+		}
+	}
 	if v == 3 {
 		tx := w.unstakeTx(4, 4, 900001)
 		r := w.block(1, tx)
@@ -128,8 +149,10 @@ func variantWorld(v int) *world {
 
 // ---- transactions -------------------------------------------------------------------------
 
+// opts: transactions are built between blocks, for the NEXT block; below the codec upgrade height they
+// are amino encoded (the decoder is gated on the last committed height).
 func (w *world) opts(signer int, entropy int64) chainsim.TxOpts {
-	return chainsim.TxOpts{Signer: w.s.Keys[signer], Fee: 10000, Entropy: entropy}
+	return chainsim.TxOpts{Signer: w.s.Keys[signer], Fee: 10000, Entropy: entropy, Legacy: w.s.Height < w.s.Cfg.CodecUpgradeAt}
 }
 
 func (w *world) name(i int) string { return w.s.Name(w.s.Addr(i)) }
@@ -269,7 +292,7 @@ func appIndex(s *chainsim.Sim) [][]interface{} {
 var focusFields = []string{"bal", "supply", "nopk", "app", "appIx", "appUnst"}
 
 // project returns (core state with this module's fields, configuration).
-func project(s *chainsim.Sim) (map[string]interface{}, chainsim.Cfg) {
+func project(s *chainsim.Sim) (map[string]interface{}, map[string]interface{}) {
 	core, cfg := s.Split(s.Project())
 	core["appIx"] = appIndex(s)
 	core["appUnst"] = core["ixAppUnstaking"]
@@ -282,7 +305,15 @@ func project(s *chainsim.Sim) (map[string]interface{}, chainsim.Cfg) {
 	} else {
 		cfg.AppParams["ParticipationRateOn"] = 0
 	}
-	return core, cfg
+	cb, _ := json.Marshal(cfg)
+	var cm map[string]interface{}
+	_ = json.Unmarshal(cb, &cm)
+	k := s.Cfg.CodecUpgradeAt
+	if k < 1 {
+		k = 1
+	}
+	cm["codecAt"] = k // height of the codec upgrade (ChainApps.CodecAt)
+	return core, cm
 }
 
 // focus keeps the focus fields and digests the rest.
